@@ -13,6 +13,7 @@ import (
 	"strings"
 
 	"github.com/zitadel/oidc/v3/pkg/oidc"
+	"github.com/zitadel/oidc/v3/pkg/op"
 
 	"verif/harness/engine"
 	"verif/harness/rig"
@@ -21,39 +22,141 @@ import (
 
 // ---------------------------------------------------------------------------
 // error kinds
+//
+// The alphabet of values a failing storage call returns. It is the union of
+//
+//	generic   what any storage failure looks like: an opaque error, the two context
+//	          errors (bare and wrapped with %w), a StatusError
+//	oidc-*    an *oidc.Error of EVERY type the library defines (the error writers
+//	          RequestError / WriteError / AuthRequestError / RevocationError switch on
+//	          the type and on the redirect-disabled flag), plus a server_error that
+//	          wraps a context error (errors.Is sees through *oidc.Error)
+//	sentinel  every error value the storage interfaces document or the library tests
+//	          with errors.Is / errors.As on a path a storage error travels:
+//	          op.ErrDuplicateUserCode, op.ErrInvalidRefreshToken, op.ErrNoClientCredentials
+//	          (bare, wrapped with %w, and inside an *oidc.Error as the library itself
+//	          builds it). op.IDTokenHintExpiredError (tested with errors.As behind the
+//	          key-set call of the id_token_hint check) cannot be built outside package
+//	          op - its only field is unexported and a zero value panics in Error() -
+//	          so no storage can return a well-formed one; it is not in the alphabet.
+//
+// Every kind is injected at every position of every method (kindsFor); nothing
+// is selected by knowledge of which handler looks at which value.
 
-var baseKinds = []string{"plain", "deadline", "canceled", "oidc-server-error"}
-var moreKinds = []string{"wrapped-deadline", "oidc-invalid-request"}
-
-func kindsFor(method string, thorough bool) []string {
-	k := append([]string(nil), baseKinds...)
-	if thorough {
-		k = append(k, moreKinds...)
-	}
-	if method == "RevokeToken" {
-		k = append(k, "oidc-invalid-client") // RevokeToken's own documented *oidc.Error return
-	}
-	return k
+type kindDef struct {
+	name string
+	mk   func() error
 }
 
+var errInjected = errors.New("c10: injected storage failure")
+
+// baseKinds: the four kinds the check started with. A violation that shows with
+// one of them carries the plain signature C10/<what>/<router>/<family>:<method>.
+var baseKinds = []string{"plain", "deadline", "canceled", "oidc-server-error"}
+
+var kindTable = []kindDef{
+	{"plain", func() error { return errors.New("c10: injected storage failure") }},
+	{"deadline", func() error { return context.DeadlineExceeded }},
+	{"canceled", func() error { return context.Canceled }},
+	{"oidc-server-error", func() error { return oidc.ErrServerError().WithDescription("storage unavailable") }},
+	// generic, wrapped
+	{"wrapped-deadline", func() error { return fmt.Errorf("c10 storage: %w", context.DeadlineExceeded) }},
+	{"wrapped-canceled", func() error { return fmt.Errorf("c10 storage: %w", context.Canceled) }},
+	{"oidc-wraps-deadline", func() error { return oidc.ErrServerError().WithParent(context.DeadlineExceeded) }},
+	{"oidc-wraps-canceled", func() error { return oidc.ErrServerError().WithParent(context.Canceled) }},
+	{"status-503", func() error { return op.NewStatusError(errInjected, 503) }},
+	{"status-401-oidc", func() error { return op.NewStatusError(oidc.ErrInvalidClient().WithDescription("storage refuses"), 401) }},
+	// *oidc.Error of every type
+	{"oidc-invalid-request", func() error { return oidc.ErrInvalidRequest().WithDescription("storage refuses") }},
+	{"oidc-invalid-request-uri", func() error { return oidc.ErrInvalidRequestRedirectURI().WithDescription("storage refuses") }},
+	{"oidc-invalid-scope", func() error { return oidc.ErrInvalidScope().WithDescription("storage refuses") }},
+	{"oidc-invalid-client", func() error { return oidc.ErrInvalidClient().WithDescription("token was not issued for this client") }},
+	{"oidc-invalid-grant", func() error { return oidc.ErrInvalidGrant().WithDescription("storage refuses") }},
+	{"oidc-unauthorized-client", func() error { return oidc.ErrUnauthorizedClient().WithDescription("storage refuses") }},
+	{"oidc-unsupported-grant-type", func() error { return oidc.ErrUnsupportedGrantType().WithDescription("storage refuses") }},
+	{"oidc-interaction-required", func() error { return oidc.ErrInteractionRequired().WithDescription("storage refuses") }},
+	{"oidc-login-required", func() error { return oidc.ErrLoginRequired().WithDescription("storage refuses") }},
+	{"oidc-request-not-supported", func() error { return oidc.ErrRequestNotSupported().WithDescription("storage refuses") }},
+	{"oidc-authorization-pending", func() error { return oidc.ErrAuthorizationPending() }},
+	{"oidc-slow-down", func() error { return oidc.ErrSlowDown() }},
+	{"oidc-access-denied", func() error { return oidc.ErrAccessDenied() }},
+	{"oidc-expired-token", func() error { return oidc.ErrExpiredDeviceCode() }},
+	{"oidc-invalid-target", func() error { return oidc.ErrInvalidTarget().WithDescription("storage refuses") }},
+	// documented / tested sentinels
+	{"dup-user-code", func() error { return op.ErrDuplicateUserCode }},
+	{"wrapped-dup-user-code", func() error { return fmt.Errorf("c10 storage: unique key: %w", op.ErrDuplicateUserCode) }},
+	{"invalid-refresh-token", func() error { return op.ErrInvalidRefreshToken }},
+	{"wrapped-invalid-refresh-token", func() error { return fmt.Errorf("c10 storage: %w", op.ErrInvalidRefreshToken) }},
+	{"no-client-credentials", func() error { return op.ErrNoClientCredentials }},
+	{"wrapped-no-client-credentials", func() error { return fmt.Errorf("c10 storage: %w", op.ErrNoClientCredentials) }},
+	{"oidc-wraps-no-client-credentials", func() error { return oidc.ErrInvalidClient().WithParent(op.ErrNoClientCredentials) }},
+}
+
+var kindByName = func() map[string]func() error {
+	m := map[string]func() error{}
+	for _, k := range kindTable {
+		m[k.name] = k.mk
+	}
+	return m
+}()
+
+var allKinds = func() []string {
+	out := make([]string, len(kindTable))
+	for i, k := range kindTable {
+		out[i] = k.name
+	}
+	return out
+}()
+
+// kindsFor: the kinds injected into a call of method. The whole alphabet at every
+// method in both tiers (a run costs a few seconds); the parameter stays so that a
+// per-method restriction, should one ever be needed, is one line.
+func kindsFor(method string, thorough bool) []string { return allKinds }
+
 func mkErr(kind string) error {
-	switch kind {
-	case "plain":
-		return errors.New("c10: injected storage failure")
-	case "deadline":
-		return context.DeadlineExceeded
-	case "canceled":
-		return context.Canceled
-	case "oidc-server-error":
-		return oidc.ErrServerError().WithDescription("storage unavailable")
-	case "wrapped-deadline":
-		return fmt.Errorf("c10 storage: %w", context.DeadlineExceeded)
-	case "oidc-invalid-request":
-		return oidc.ErrInvalidRequest().WithDescription("storage refuses")
-	case "oidc-invalid-client":
-		return oidc.ErrInvalidClient().WithDescription("token was not issued for this client")
+	if mk := kindByName[kind]; mk != nil {
+		return mk()
 	}
 	panic("unknown error kind " + kind)
+}
+
+// kindFamily: the value a kind is built around (a sentinel bare, wrapped with %w
+// or carried by an *oidc.Error is one family: one signature).
+func kindFamily(kind string) string {
+	return strings.TrimPrefix(strings.TrimPrefix(kind, "wrapped-"), "oidc-wraps-")
+}
+
+func isBaseKind(kind string) bool {
+	for _, k := range baseKinds {
+		if k == kind {
+			return true
+		}
+	}
+	return false
+}
+
+// documentedAnswer: return values that the storage interface (pkg/op/storage.go)
+// documents as an ANSWER the caller is meant to react to, not as a failure:
+//
+//	StoreDeviceAuthorization  ErrDuplicateUserCode "signals the caller should try
+//	                          again with a new code"
+//	GetRefreshTokenInfo       "must return ErrInvalidRefreshToken when presented with
+//	                          a token that is not a refresh token"
+//
+// The statement speaks of a storage call that FAILS; whether these two returns are
+// failures it does not say. Oracle for an execution in which nothing else failed:
+// Either an error answer, or a success answer - but then every code / token in it
+// must be one the storage accepted (unaccepted, below). Everywhere else (any other
+// method, any other kind, any mix with a real failure) the full oracle applies.
+func documentedAnswer(method, kind string) bool {
+	kind = strings.TrimPrefix(kind, "wrapped-")
+	switch method {
+	case "StoreDeviceAuthorization":
+		return kind == "dup-user-code"
+	case "GetRefreshTokenInfo":
+		return kind == "invalid-refresh-token"
+	}
+	return false
 }
 
 // ---------------------------------------------------------------------------
@@ -115,7 +218,48 @@ func (w *worker) run(plan engine.E4Plan) engine.E4Obs {
 	for i, c := range o.journal {
 		names[i] = c.Method
 	}
-	return engine.E4Obs{Result: judge(p, plan, o), Journal: names, Fired: o.fired}
+	res, blamed := judge(p, plan, o)
+	if res.Sig != "" && blamed != "" && !isBaseKind(blamed) {
+		// The violation showed with a kind outside the four base kinds. Name the
+		// discriminating input class: when the same plan with every FAILURE kind
+		// replaced by the opaque error gives the same signature the kind is
+		// irrelevant (one defect site = one signature); otherwise the kind is what
+		// it takes, and the signature says so.
+		gen := generalise(plan, names, o.fired)
+		og := w.execute(p, gen)
+		r2, _ := judge(p, gen, og)
+		same := r2.Sig == res.Sig
+		if !same {
+			res.Sig += "=" + kindFamily(blamed)
+		}
+	}
+	return engine.E4Obs{Result: res, Journal: names, Fired: o.fired}
+}
+
+// kindAt: the kind the plan injects into journal position idx (a call of method).
+func kindAt(plan engine.E4Plan, idx int, method string) string {
+	for _, f := range plan.Faults {
+		if f.Idx == idx {
+			return f.Kind
+		}
+	}
+	return plan.Kind
+}
+
+// generalise: the plan with every FAILURE it injected (a fired fault that is not a
+// documented answer of the method it hit) turned into the opaque error, as an
+// index plan over the positions that fired (names = the journal observed under
+// the plan; the prefix up to a fault does not depend on the fault).
+func generalise(plan engine.E4Plan, names []string, fired []int) engine.E4Plan {
+	g := engine.E4Plan{Flow: plan.Flow}
+	for _, i := range fired {
+		k := kindAt(plan, i, names[i])
+		if !documentedAnswer(names[i], k) {
+			k = "plain"
+		}
+		g.Faults = append(g.Faults, engine.E4Fault{Idx: i, Kind: k})
+	}
+	return g
 }
 
 // ---------------------------------------------------------------------------
@@ -444,7 +588,83 @@ func describe(o *observation) string {
 		strings.Join(j, " "), hdrAt, o.resp.Status, o.resp.Header.Get("Location"), short(o.resp.Body))
 }
 
-func judge(p *prepared, plan engine.E4Plan, o *observation) engine.Result {
+// unaccepted lists the codes / tokens of a (success) answer that the storage never
+// accepted: what the client is handed must exist in the storage after the request
+// (refstore changes its state only in calls that were not made to fail, so "is in
+// the post-state" = "a storage call that was given this value returned nil").
+//
+//	code            Storage.SaveAuthCode accepted it
+//	device_code     StoreDeviceAuthorization accepted it, together with the user_code
+//	user_code       of the same answer
+//	refresh_token   is a live refresh token
+//	access_token    opaque: unseals to the id of a live access token; JWT with a
+//	                jti: the jti is the id of a live access token (an ID token
+//	                handed out as access_token by token exchange has no jti: Either)
+//
+// ID tokens are not stored anywhere: Either. Values the client sent are skipped.
+func unaccepted(p *prepared, a *analysis, o *observation) []string {
+	if o.post == nil {
+		return nil
+	}
+	input := map[string]bool{}
+	for _, s := range p.fin.inputs {
+		input[s] = true
+	}
+	var out []string
+	val := func(k string) string {
+		if v := a.param(k); v != "" && !input[v] {
+			return v
+		}
+		return ""
+	}
+	if v := val("code"); v != "" {
+		if _, ok := o.post.Codes[v]; !ok {
+			out = append(out, "code")
+		}
+	}
+	dc, uc := val("device_code"), val("user_code")
+	if dc != "" {
+		if d, ok := o.post.Devices[dc]; !ok || (uc != "" && d.UserCode != uc) {
+			out = append(out, "device_code")
+		}
+	}
+	if uc != "" {
+		if d, ok := o.post.UserCodes[uc]; !ok || (dc != "" && d != dc) {
+			out = append(out, "user_code")
+		}
+	}
+	if v := val("refresh_token"); v != "" {
+		if _, ok := o.post.Refreshes[v]; !ok {
+			out = append(out, "refresh_token")
+		}
+	}
+	if v := val("access_token"); v != "" {
+		id, known := "", false
+		if isJWT(v) {
+			if pl, err := base64.RawURLEncoding.DecodeString(strings.Split(v, ".")[1]); err == nil {
+				var claims map[string]any
+				if json.Unmarshal(pl, &claims) == nil {
+					id, _ = claims["jti"].(string)
+					known = id != ""
+				}
+			}
+		} else if pt, err := p.r.Provider.Crypto().Decrypt(v); err == nil {
+			id, _, _ = strings.Cut(pt, ":")
+			known = true
+		} else {
+			known = true // neither a JWT nor sealed by this provider: nothing the storage issued
+		}
+		if known {
+			if _, ok := o.post.Tokens[id]; !ok {
+				out = append(out, "access_token")
+			}
+		}
+	}
+	return out
+}
+
+// judge returns the verdict and, for a violation, the kind of the fault it blames.
+func judge(p *prepared, plan engine.E4Plan, o *observation) (engine.Result, string) {
 	f := p.f
 	router := rig.Routers[f.router]
 	a := analyse(o.resp)
@@ -454,7 +674,7 @@ func judge(p *prepared, plan engine.E4Plan, o *observation) engine.Result {
 		rule := "baseline-serves/" + f.family
 		if o.resp.Panic != "" {
 			return engine.Bad(rule, "panic", fmt.Sprintf("C10/baseline-panic/%s/%s", router, panicSite(o.resp.Panic)),
-				"fault-free request panics: "+o.resp.Panic)
+				"fault-free request panics: "+o.resp.Panic), ""
 		}
 		class := a.successClass()
 		if ec, isErr := a.errorClass(&p.fin); isErr {
@@ -463,19 +683,37 @@ func judge(p *prepared, plan engine.E4Plan, o *observation) engine.Result {
 		}
 		if class != f.expect {
 			return engine.Bad(rule, class, fmt.Sprintf("C10/baseline/%s/%s:%s", router, f.family, f.kase),
-				fmt.Sprintf("the fault-free run of %s must be %q, got %q: %s", f.name, f.expect, class, describe(o)))
+				fmt.Sprintf("the fault-free run of %s must be %q, got %q: %s", f.name, f.expect, class, describe(o))), ""
 		}
-		return engine.OK(rule, class)
+		// self-check of the acceptance relation used below: whatever a fault-free
+		// success hands out was accepted by the storage
+		if class != "refused" {
+			if u := unaccepted(p, a, o); len(u) > 0 {
+				return engine.Bad(rule, "unstored:"+class, fmt.Sprintf("C10/baseline/%s/%s:%s", router, f.family, f.kase),
+					fmt.Sprintf("the fault-free run of %s hands out %v that the storage does not hold afterwards: %s", f.name, u, describe(o))), ""
+			}
+		}
+		return engine.OK(rule, class), ""
 	}
 
 	rule := "fault-fails-closed/" + f.family
-	firstMethod := o.journal[o.fired[0]].Method
+	// the fault to blame: the first injected FAILURE; a documented answer (see
+	// documentedAnswer) is blamed only when nothing else was injected
+	blamedAt, onlyAnswers := o.fired[0], true
+	for _, i := range o.fired {
+		if !documentedAnswer(o.journal[i].Method, kindAt(plan, i, o.journal[i].Method)) {
+			blamedAt, onlyAnswers = i, false
+			break
+		}
+	}
+	firstMethod := o.journal[blamedAt].Method
+	blamed := kindAt(plan, blamedAt, firstMethod)
 	input := f.family + ":" + firstMethod
 
 	// (1) the handler does not panic
 	if o.resp.Panic != "" {
 		return engine.Bad(rule, "panic", fmt.Sprintf("C10/panic/%s/%s", router, panicSite(o.resp.Panic)),
-			fmt.Sprintf("handler panics when storage call fails (%s): %s; %s", plan, o.resp.Panic, describe(o)))
+			fmt.Sprintf("handler panics when storage call fails (%s): %s; %s", plan, o.resp.Panic, describe(o))), blamed
 	}
 
 	ec, isErr := a.errorClass(&p.fin)
@@ -483,7 +721,7 @@ func judge(p *prepared, plan engine.E4Plan, o *observation) engine.Result {
 		// (2) an error answer must not carry codes, tokens or user claims
 		if l := leaks(p, a, o); len(l) > 0 {
 			return engine.Bad(rule, "leak-in-error", fmt.Sprintf("C10/leak-in-error/%s/%s", router, input),
-				fmt.Sprintf("error response contains %v (%s): %s", l, plan, describe(o)))
+				fmt.Sprintf("error response contains %v (%s): %s", l, plan, describe(o))), blamed
 		}
 		// (3) an error redirect goes to the ALREADY VALIDATED redirect URI: the client
 		// (authorize) or the stored request (callback) was obtained from the storage
@@ -501,7 +739,7 @@ func judge(p *prepared, plan engine.E4Plan, o *observation) engine.Result {
 			}
 			if !validated {
 				return engine.Bad(rule, "redirect-unvalidated", fmt.Sprintf("C10/error-redirect-before-validation/%s/%s", router, input),
-					fmt.Sprintf("error redirect although neither the client nor the stored request was obtained (%s): %s", plan, describe(o)))
+					fmt.Sprintf("error redirect although neither the client nor the stored request was obtained (%s): %s", plan, describe(o))), blamed
 			}
 		}
 		if f.family == "device" && strings.HasPrefix(f.kase, "poll") {
@@ -509,7 +747,7 @@ func judge(p *prepared, plan engine.E4Plan, o *observation) engine.Result {
 				ec += ":" + code
 			}
 		}
-		return engine.OK(rule, ec)
+		return engine.OK(rule, ec), ""
 	}
 
 	class := a.successClass()
@@ -517,9 +755,9 @@ func judge(p *prepared, plan engine.E4Plan, o *observation) engine.Result {
 	if f.family == "introspect" && a.status == 200 && a.isJSON && a.js["active"] != true {
 		if l := leaks(p, a, o); len(l) > 0 {
 			return engine.Bad(rule, "leak-in-inactive", fmt.Sprintf("C10/leak-in-error/%s/%s", router, input),
-				fmt.Sprintf("inactive introspection response contains %v (%s): %s", l, plan, describe(o)))
+				fmt.Sprintf("inactive introspection response contains %v (%s): %s", l, plan, describe(o))), blamed
 		}
-		return engine.OK("introspection-not-active/"+f.family, "inactive")
+		return engine.OK("introspection-not-active/"+f.family, "inactive"), ""
 	}
 	// Either (DESIGN 1.6): discovery is not a flow; information only
 	if f.family == "discovery" {
@@ -527,7 +765,20 @@ func judge(p *prepared, plan engine.E4Plan, o *observation) engine.Result {
 		if a.js["id_token_signing_alg_values_supported"] != nil {
 			out = "discovery-with-algs"
 		}
-		return engine.OK("information-only/discovery", out)
+		return engine.OK("information-only/discovery", out), ""
+	}
+	// Either: nothing failed but calls that returned a value the storage interface
+	// documents as an answer (retry with a new user code / not a refresh token). The
+	// statement does not say that these are failures, so a success is tolerated -
+	// provided the answer hands out nothing the storage did not accept.
+	if onlyAnswers {
+		rule = "documented-answer/" + f.family
+		if u := unaccepted(p, a, o); len(u) > 0 {
+			return engine.Bad(rule, "served-unstored:"+class, fmt.Sprintf("C10/unstored-in-success/%s/%s", router, input),
+				fmt.Sprintf("every failing storage call returned a documented retry / not-mine answer, the response is a success (%s) and hands out %v that the storage never accepted (%s): %s",
+					class, u, plan, describe(o))), blamed
+		}
+		return engine.OK(rule, "served:"+class), ""
 	}
 
 	// (4) success although a storage call failed
@@ -537,7 +788,7 @@ func judge(p *prepared, plan engine.E4Plan, o *observation) engine.Result {
 		what, outcome = "fault-after-response", "served-then-fault:"+class
 	}
 	return engine.Bad(rule, outcome, fmt.Sprintf("C10/%s/%s/%s", what, router, input),
-		fmt.Sprintf("storage call %s failed, yet the answer is a success (%s) (%s): %s", firstMethod, class, plan, describe(o)))
+		fmt.Sprintf("storage call %s failed, yet the answer is a success (%s) (%s): %s", firstMethod, class, plan, describe(o))), blamed
 }
 
 func containsInt(l []int, x int) bool {
